@@ -1006,8 +1006,12 @@ pub fn run_mcase(prop: &str, case: &MCase, ctx: &mut CaseCtx) -> Result<(), Viol
                 if post.props.len() != pre.props.len() + 1 {
                     return Err(v(prop, "proposal-count", format!("{at}: one propose changed the number of proposals from {} to {}", pre.props.len(), post.props.len())));
                 }
-                if prop == "C05" && (obs.id != expect_id || id != Some(expect_id)) {
-                    return Err(v(prop, "ids-not-sequential", format!("{at}: new proposal has id {} (response says {:?}), expected {}", obs.id, id, expect_id)));
+                let _ = expect_id;
+                // ids are unique and increasing (the statement does not demand steps of one); if the
+                // response names an id it must be the listed one
+                let max_prev = pre.props.iter().map(|p| p.id).max().unwrap_or(0);
+                if prop == "C05" && (obs.id <= max_prev || id.map(|x| x != obs.id).unwrap_or(false)) {
+                    return Err(v(prop, "ids-not-increasing", format!("{at}: new proposal has id {} (response says {:?}), previous maximum {}", obs.id, id, max_prev)));
                 }
                 models.push(PModel {
                     id: obs.id,
